@@ -1,4 +1,5 @@
 import DoraModel.Trace.Model
+import DoraModel.Trace.Bytecode
 import DoraModel.Mini.Eval
 /-!
 Driver for C14. Two kinds of requests on stdin:
@@ -11,6 +12,10 @@ Driver for C14. Two kinds of requests on stdin:
    then `done`.
 2. one S-expression program per line (`(program <name> …)`): the MiniDora reference interpreter runs it and prints
      `mini <name> <stdout hex|-> <outcome> <fn@line,…|->`      innermost first; outcome as in drv_c01.
+3. the requests of `h_c14` (bytecode-level lookup, `DoraModel/Trace/Bytecode.lean`):
+     `bctab <off:line:col;…|->`  ->  `<line>.<col> …`  (`offset_location q` for q = 0 … last offset + 2)
+     `bcwr <name:a:b:c:needs:size:line.col|-,…>`  ->  `len=<n> tab=<off:line:col;…|-> at=<off>=<line>.<col>;…`
+   a `none` of the model (= panic of the code) is answered `!panic`.
 -/
 open Dora.Trace
 
@@ -163,11 +168,76 @@ def respondMini (fuel : Nat) (line : String) : String :=
       "mini " ++ p.name ++ " " ++ toHex out ++ " " ++ outcomeStr o ++ " " ++ chs
   | .ok _ => "mini ? - parse-error:" ++ toHex "expected exactly one form per line" ++ " -"
 
+/-! ### bytecode-level lookup -/
+namespace BcDrv
+open Dora.Trace.Bc
+
+def parseTable (s : String) : Option (List BEntry) :=
+  if s = "-" then some [] else
+    (s.splitOn ";").mapM fun e =>
+      match (e.splitOn ":").map String.toNat? with
+      | [some o, some l, some c] => some ⟨o, ⟨l, c⟩⟩
+      | _ => none
+
+def locStr (l : Loc) : String := s!"{l.line}.{l.col}"
+
+def tableStr (t : List BEntry) : String :=
+  if t.isEmpty then "-" else ";".intercalate (t.map fun e => s!"{e.off}:{e.loc.line}:{e.loc.col}")
+
+def parseLoc (s : String) : Option (Option Loc) :=
+  if s = "-" then some none else
+    match (s.splitOn ".").map String.toNat? with
+    | [some l, some c] => some (some ⟨l, c⟩)
+    | _ => none
+
+def parseInstr (s : String) : Option Instr :=
+  match s.splitOn ":" with
+  | [_name, _a, _b, _c, needs, size, loc] =>
+    match size.toNat?, parseLoc loc with
+    | some sz, some l => some ⟨l, needs == "1", sz⟩
+    | _, _ => none
+  | _ => none
+
+def respondTab (arg : String) : String :=
+  match parseTable arg with
+  | none => "!badreq"
+  | some t =>
+    let last := (t.getLast?.map (·.off)).getD 0
+    let rs := (List.range (last + 3)).map fun q => offsetLocation t q
+    if rs.any Option.isNone then "!panic"
+    else " ".intercalate (rs.filterMap fun r => r.map locStr)
+
+def respondWr (arg : String) : String :=
+  match (arg.splitOn ",").mapM parseInstr with
+  | none => "!badreq"
+  | some is =>
+    match emitAll WState.init is with
+    | none => "!panic"
+    | some s =>
+      let offs := (List.range is.length).map (offsetOf is)
+      let rs := offs.map fun q => (q, offsetLocation s.table q)
+      if rs.any (fun r => r.2.isNone) then "!panic"
+      else
+        let at_ := ";".intercalate (rs.filterMap fun (q, r) => r.map fun l => s!"{q}={locStr l}")
+        s!"len={s.codeLen} tab={tableStr s.table} at={at_}"
+
+def respond (line : String) : Option String :=
+  match line.trimAscii.toString.splitOn " " with
+  | ["bctab", t] => some (respondTab t)
+  | ["bcwr", ops] => some (respondWr ops)
+  | _ => none
+
+end BcDrv
+
 partial def loop (h : IO.FS.Stream) (out : IO.FS.Stream) (st : St) : IO Unit := do
   let line ← h.getLine
   if line.isEmpty then return ()
   if line.startsWith "(program" then
     out.putStrLn (respondMini 20000 line)
+    out.flush
+    loop h out st
+  else if let some r := BcDrv.respond line then
+    out.putStrLn r
     out.flush
     loop h out st
   else
